@@ -95,9 +95,10 @@ def run(ck):
                     float(numpy.abs(direct - via).max()))
         # step by step (jit), with and without saving
         k = rng.randint(1, Nt - 1)
-        for save in (False, True):
+        # second pass: a time axis with as many points as the system has states (array shapes coincide), all its steps
+        for save, jtime, k in ((False, time, k), (True, time, k), (False, TimeAxis(0.0, n, step), n - 1), (True, TimeAxis(0.0, n, step), n - 1)):
             try:
-                J = EvolutionSuperOperator(time, ham, LF, mode="jit")
+                J = EvolutionSuperOperator(jtime, ham, LF, mode="jit")
                 J.set_dense_dt(Nd)
                 for _ in range(k):
                     J.calculate_next(save=save)
@@ -106,9 +107,10 @@ def run(ck):
                 ck.fail("raises:calculate_next", "calculate_next raised %r" % (e,), dict(inp, k=k, save=save))
                 continue
             emit("jitt %d 4 %d %d %s 0 %s %s" % (n, Nd, k, cfrac(step), cv(H), cv(R)), [jd])
-            ck.case(("jit", n, Nt, step, Nd, k, save, H.tobytes()), nontrivial=k >= 3, kind="jit", steps=k, save=save)
+            ck.case(("jit", n, jtime.length, step, Nd, k, save, H.tobytes()), nontrivial=k >= 2, kind="jit", steps=k, save=save,
+                    axis_len_eq_dim=(jtime.length == n))
             if numpy.abs(jd - data[k]).max() > 1e-9 * sc:
-                ck.fail("jit-vs-all", "step-by-step calculation differs from calculating all at once", dict(inp, k=k, save=save),
+                ck.fail("jit-vs-all", "step-by-step calculation differs from calculating all at once", dict(inp, k=k, save=save, jit_axis_length=jtime.length),
                         float(numpy.abs(jd - data[k]).max()))
         # refinement: Nd vs 2Nd within the sum of the truncation bounds
         Lv = SY.gksl_superop(numpy, H, Ks, rates)
